@@ -1,6 +1,7 @@
 import DriverLib.Basic
 import DriverLib.C13
 import QV.Model.Composite
+import QV.Model.Observables
 open Lean Drv QV QV.Composite
 
 namespace Drv.C16
@@ -130,11 +131,97 @@ def statisticsOp (j : Json) : R Json := do
       return Json.mkObj (hdr ++ [("result", Drv.C13.statOut s), ("onepass", one),
         ("calls", .arr (tr.toArray.map Drv.C13.callOut))])
 
+
+/-- Python's `repr` / `str` of an INTEGER-VALUED scalar of each kind (`True`, `-3`, `2.0`, `np.float64(2.0)` / `2.0`) -/
+def intRender : Render Int :=
+  { repr := fun k c => match k with
+      | .bool => if c != 0 then "True" else "False"
+      | .int => toString c
+      | .float => toString c ++ ".0"
+      | .npfloat => "np.float64(" ++ toString c ++ ".0)"
+      | .bad => "?"
+    str := fun k c => match k with
+      | .bool => if c != 0 then "True" else "False"
+      | .int => toString c
+      | .float => toString c ++ ".0"
+      | .npfloat => toString c ++ ".0"
+      | .bad => "?" }
+
+def parseFlag (j : Json) : R PyFlag := do
+  let form ← jNat (← fld j "form")
+  let v ← jInt (← fld j "value")
+  return match form with
+    | 0 => .pyBool (v != 0)
+    | 1 => .pyInt v
+    | 2 => .npBool (v != 0)
+    | 3 => .npArr0 (v != 0)
+    | _ => .tensor0 (v != 0)
+
+def optStr (j : Json) (k : String) : R (Option String) :=
+  match fldOpt j k with
+  | none => pure none
+  | some .null => pure none
+  | some v => do return some (← jStr v)
+
+/-- a leaf object: `{"builtin": "SigmaX"|"SigmaY"|"SigmaZ"|"SWAP"}`, `{"builtin": "NI", "periodic": flag, "c": n}` (→ `Builtin.names`), or a user class `{"cls": name, "name": str|null, "symbol": str|null}` (what was
+assigned through the setters, null = never / `None`) -/
+def parseIdent (j : Json) : R Composite.Ident := do
+  match fldOpt j "builtin" with
+  | some b =>
+    let tag ← jStr b
+    let bi : Builtin ← (match tag with
+      | "SigmaX" => pure Builtin.sigmaX | "SigmaY" => pure Builtin.sigmaY | "SigmaZ" => pure Builtin.sigmaZ
+      | "SWAP" => pure Builtin.swap
+      | "NI" => do
+        let p ← parseFlag (← fld j "periodic")
+        pure (Builtin.neighbour p (← jNat (← fld j "c")))
+      | t => .error s!"unknown builtin {t}")
+    let (cls, nm, sy) := bi.names
+    -- `__init__` assigns through the setters
+    return (Composite.Ident.setSymbol (Composite.Ident.setName ⟨cls, none, none⟩ (some nm)) (some sy))
+  | none =>
+    let cls ← jStr (← fld j "cls")
+    return (Composite.Ident.setSymbol (Composite.Ident.setName ⟨cls, none, none⟩ (← optStr j "name")) (← optStr j "symbol"))
+
+/-- op `c16.names`: `name` / `symbol` of the object built from `expr` over the leaves `leaves` (integer carrier), both
+through the modelled constructors (`buildN`) and from the specification (`exprText`); with `ctor` = "sum" | "prod" the
+constructor is called directly on the operands built from `a` and `b` with the optional `name=` / `symbol=` arguments. -/
+def namesOp (j : Json) : R Json := do
+  let idsA ← (← jArr (← fld j "leaves")).mapM parseIdent
+  let ids : Nat → Composite.Ident := fun i => idsA.getD i ⟨"?", none, none⟩
+  let leafOut : Json := .arr (idsA.map (fun i => Json.arr #[.str i.getName, .str i.getSymbol]))
+  match fldOpt j "ctor" with
+  | some w =>
+    let which ← jStr w
+    let ea ← parseExpr jInt (← fld j "a")
+    let eb ← parseExpr jInt (← fld j "b")
+    let nm ← optStr j "name"
+    let sy ← optStr j "symbol"
+    match buildN intRender ids ea, buildN intRender ids eb with
+    | .error err, _ => return Json.mkObj [("operand_error", .str err.toString), ("leaves", leafOut)]
+    | _, .error err => return Json.mkObj [("operand_error", .str err.toString), ("leaves", leafOut)]
+    | .ok va, .ok vb =>
+      match (if which == "sum" then mkSumN intRender va vb nm sy else mkProdN intRender va vb nm sy) with
+      | .error err => return Json.mkObj [("error", .str err.toString), ("leaves", leafOut)]
+      | .ok n => return Json.mkObj [("kind", .str "obs"), ("name", .str n.name), ("symbol", .str n.symbol),
+          ("tree", obsOut iOut n.o), ("leaves", leafOut)]
+  | none =>
+    let e ← parseExpr jInt (← fld j "expr")
+    match buildN intRender ids e with
+    | .error err => return Json.mkObj [("error", .str err.toString), ("leaves", leafOut)]
+    | .ok (.scal k c) => return Json.mkObj [("kind", .str "scalar"), ("name", .str (intRender.repr k c)),
+        ("symbol", .str (intRender.str k c)), ("leaves", leafOut)]
+    | .ok (.obs n) =>
+      return Json.mkObj [("kind", .str "obs"), ("name", .str n.name), ("symbol", .str n.symbol),
+        ("spec_name", .str (exprText intRender ids true e)), ("spec_symbol", .str (exprText intRender ids false e)),
+        ("tree", obsOut iOut n.o), ("leaves", leafOut)]
+
 def handle (op : String) (j : Json) : Option (R Json) :=
   match op with
   | "c16.build" => some (buildOp j)
   | "c16.ctor" => some (ctorOp j)
   | "c16.statistics" => some (statisticsOp j)
+  | "c16.names" => some (namesOp j)
   | _ => none
 
 end Drv.C16
